@@ -692,6 +692,10 @@ func (c *Client) receipts(ctx context.Context, url string, bm blockmap, start, l
 	if err != nil {
 		return fmt.Errorf("requesting receipts: %w", err)
 	}
+	if len(resps) != len(reqs) {
+		const tag = "eth_getBlockReceipts: rpc response contains invalid data. requested %d batch elements got: %d"
+		return fmt.Errorf(tag, len(reqs), len(resps))
+	}
 	for i := range resps {
 		if resps[i].Error.Exists() {
 			const tag = "eth_getBlockReceipts"
@@ -699,6 +703,9 @@ func (c *Client) receipts(ctx context.Context, url string, bm blockmap, start, l
 		}
 	}
 	for i := range resps {
+		if resps[i].Result == nil {
+			return fmt.Errorf("eth_getBlockReceipts: no rpc error but missing result")
+		}
 		if len(resps[i].Result) == 0 {
 			slog.ErrorContext(ctx, "no rpc error but empty result")
 			continue
